@@ -8,6 +8,7 @@ import (
 	"os"
 	"sync"
 	"testing"
+	"time"
 
 	"github.com/sirupsen/logrus"
 	"github.com/zitadel/logging"
@@ -17,6 +18,10 @@ import (
 )
 
 func TestMain(m *testing.M) {
+	// The IdP must not depend on the zone of the process it runs in: the checks run it in a zone that is hours away from
+	// UTC (east or west, with a quarter-hour offset, chosen by the seed); the harness itself only ever formats UTC.
+	zones := []*time.Location{time.FixedZone("VERIF+0545", 5*3600+45*60), time.FixedZone("VERIF-0930", -(9*3600 + 30*60)), time.FixedZone("VERIF+1300", 13*3600)}
+	time.Local = zones[int(uint64(ev.Seed())%uint64(len(zones)))]
 	logging.SetOutput(io.Discard)
 	logging.SetLevel(logrus.PanicLevel)
 	log.SetOutput(io.Discard)
